@@ -248,14 +248,14 @@ func runHistory(im *Impl, r *Rng, h int, seed uint64) (string, string, bool) {
 		cl[i] = CoqN(nm.id(c))
 	}
 	label := fmt.Sprintf("ads history seed=%d#%d conns=%v kinds=%v", seed, h, conns, kinds)
-	return fmt.Sprintf("{| ac_conns := %s; ac_hist := %s |}", CoqList(cl), CoqList(hs)), label, sawCancelThenOld
+	return fmt.Sprintf("(CHist {| ac_conns := %s; ac_hist := %s |})", CoqList(cl), CoqList(hs)), label, sawCancelThenOld
 }
 
 func run(c *Ctx) {
 	QuietLogs()
 	im := NewImpl("C18", c.Seed, c.Tier)
 	im.Rule = "white-box histories of 1-25 advertisements/withdrawals (2-5 nodes x 2 services, timestamps 1..12 so that equal/older/newer and withdrawal-then-older all occur) delivered to one real node; non-trivial = the history contains an advertisement older than a withdrawal already delivered; mesh scenarios: non-trivial = at least one listener closed and one late joiner; distinct by full history"
-	cf := &CaseFile{Dir: c.Out, Prop: "C18", Imports: []string{"Model.Ads"}, CaseType: "ads_case", CheckFn: checkFn(), PerShard: 80}
+	cf := &CaseFile{Dir: c.Out, Prop: "C18", Imports: []string{"Model.Ads"}, CaseType: "c18_case", CheckFn: checkFn(), PerShard: 80}
 	nh := 800
 	if c.Thorough() {
 		nh = 8000
@@ -268,6 +268,16 @@ func run(c *Ctx) {
 		if h < 2 {
 			im.Sample(label)
 		}
+	}
+	nl := 150
+	if c.Thorough() {
+		nl = 1500
+	}
+	for h := 0; h < nl; h++ {
+		r := NewRng(c.Seed*15485863 + uint64(h))
+		term, label, nt := runLocalHistory(im, r, h, c.Seed)
+		cf.Add(term, label)
+		im.Count(label, nt)
 	}
 	meshScenarios(c, im)
 	Must(cf.Write())
@@ -385,7 +395,127 @@ func meshScenarios(c *Ctx, im *Impl) {
 // checkFn: VERIF_C18_PINNED=1 compares with the model of the pinned (pre-fix) tree instead.
 func checkFn() string {
 	if os.Getenv("VERIF_C18_PINNED") != "" {
-		return "ads_check_pinned"
+		return "c18_check_pinned"
 	}
-	return "ads_check"
+	return "c18_check"
+}
+
+// runLocalHistory: the node's OWN listeners opened and closed (ListenPacketAndAdvertise /
+// Close) interleaved with advertisements about the node itself coming back from the mesh
+// (older echoes, and forged newer ones) and about other nodes; step-exact against ad_step.
+func runLocalHistory(im *Impl, r *Rng, h int, seed uint64) (string, string, bool) {
+	conns := []string{"c0", "c1"}[:1+r.Intn(2)]
+	ctx, cancel := context.WithCancel(context.Background())
+	defer cancel()
+	n := netceptor.NewWithConsts(ctx, "self", 16384, time.Hour, time.Hour, time.Hour, 30, time.Hour)
+	chans := map[string]chan []byte{}
+	for _, c := range conns {
+		ch, _ := n.VerifAddConn(c, 1, 4096)
+		chans[c] = ch
+	}
+	time.Sleep(time.Millisecond)
+	base := runtime.NumGoroutine()
+	nm := &ids{m: map[string]uint64{"": 0, "self": 1}}
+	for _, c := range conns {
+		nm.id(c)
+	}
+	svcs := []string{"s1", "s2"}
+	open := map[string]netceptor.PacketConner{}
+	closedAt := map[string]int{} // time of the last local close
+	var hs, kinds []string
+	echoAfterClose := false
+	observe := func() (map[string]map[string][2]int, string, int) {
+		settle(base + len(open)*4) // each open socket keeps a few goroutines of its own
+		time.Sleep(200 * time.Microsecond)
+		ads := map[string]map[string][2]int{}
+		for nn, m := range n.VerifServiceAds() {
+			for s, ad := range m {
+				if ads[nn] == nil {
+					ads[nn] = map[string][2]int{}
+				}
+				b := 0
+				fmt.Sscan(ad.Tags["b"], &b)
+				ads[nn][s] = [2]int{tOf(ad.Time), b}
+			}
+		}
+		var cs []string
+		for c := range chans {
+			cs = append(cs, c)
+		}
+		sort.Strings(cs)
+		var rels []string
+		ct := 0
+		for _, c := range cs {
+			for _, m := range Drain(chans[c]) {
+				if len(m) == 0 || m[0] != netceptor.MsgTypeServiceAdvertisement {
+					continue
+				}
+				var am adMsg
+				if json.Unmarshal(m[1:], &am) != nil {
+					continue
+				}
+				ct = tOf(am.Time)
+				rels = append(rels, fmt.Sprintf("(%d, %d, %d, %d, %s)", nm.id(c), nm.id(am.NodeID), nm.id("svc:"+am.Service), tOf(am.Time), CoqBool(am.Cancel)))
+			}
+		}
+		return ads, CoqList(rels), ct
+	}
+	hlen := 2 + r.Intn(10)
+	for i := 0; i < hlen; i++ {
+		svc := svcs[r.Intn(len(svcs))]
+		switch x := r.Intn(100); {
+		case x < 30 && open[svc] == nil:
+			body := r.Intn(4)
+			pc, err := n.ListenPacketAndAdvertise(svc, map[string]string{"b": fmt.Sprint(body)})
+			if err != nil {
+				continue
+			}
+			open[svc] = pc
+			ads, rels, _ := observe()
+			t := ads["self"][svc][0]
+			hs = append(hs, fmt.Sprintf("(EvLocalAdd %d %d %d, {| ao_ads := %s; ao_relays := %s |})", nm.id("svc:"+svc), t, body, coqAds(nm, ads), rels))
+			kinds = append(kinds, "local-open")
+		case x < 55 && open[svc] != nil:
+			_ = open[svc].Close()
+			delete(open, svc)
+			ads, rels, ct := observe()
+			closedAt[svc] = ct
+			if _, still := ads["self"][svc]; still {
+				im.Violate("a closed local listener is still advertised locally", "local-close-still-listed", svc)
+			}
+			hs = append(hs, fmt.Sprintf("(EvLocalRemove %d %d, {| ao_ads := %s; ao_relays := %s |})", nm.id("svc:"+svc), ct, coqAds(nm, ads), rels))
+			kinds = append(kinds, "local-close")
+		default:
+			// a message about this node (echo of an old own advertisement, or a forged newer one) or about another node
+			a := adIn{Node: "self", Svc: svc, T: 1 + r.Intn(50), Cancel: r.Chance(20), Body: r.Intn(4), Recv: conns[r.Intn(len(conns))]}
+			if r.Chance(30) {
+				a.Node = "na"
+			}
+			if r.Chance(15) {
+				a.T = 40000000000 + r.Intn(1000) // far in the future: newer than anything local
+			}
+			_ = n.VerifHandleServiceAdvertisement(a.wire(), a.Recv)
+			ads, rels, _ := observe()
+			if a.Node == "self" && !a.Cancel && open[svc] == nil && closedAt[svc] > a.T {
+				echoAfterClose = true
+				// listed again with a time that is not newer than the node's own withdrawal
+				if v, listed := ads["self"][svc]; listed && v[0] <= closedAt[svc] {
+					im.Violate("an old advertisement of a service this node has closed lists it again on the node itself", "own-withdrawn-resurrected", a)
+				}
+			}
+			hs = append(hs, fmt.Sprintf("(EvRecv {| a_node := %d; a_svc := %d; a_time := %d; a_cancel := %s; a_body := %d |} %d, {| ao_ads := %s; ao_relays := %s |})",
+				nm.id(a.Node), nm.id("svc:"+a.Svc), a.T, CoqBool(a.Cancel), a.Body, nm.id(a.Recv), coqAds(nm, ads), rels))
+			kinds = append(kinds, "recv")
+		}
+	}
+	for _, pc := range open {
+		_ = pc.Close()
+	}
+	cl := make([]string, len(conns))
+	for i, c := range conns {
+		cl[i] = CoqN(nm.id(c))
+	}
+	label := fmt.Sprintf("local history seed=%d#%d kinds=%v", seed, h, kinds)
+	im.Hist("local-history")
+	return fmt.Sprintf("(CEv {| ec_conns := %s; ec_hist := %s |})", CoqList(cl), CoqList(hs)), label, echoAfterClose
 }
